@@ -101,6 +101,28 @@ Definition convert_leaf (v : pyval) : lit :=
   | _ => LErr
   end.
 
+(** struct field names go through the input dialect's normalize_identifier: Spark's is case-insensitive, every
+    name (quoted or not) is lower-cased -- in the struct literal and in the type of the per-column CAST alike *)
+Definition lower_ustr (s : ustr) : ustr :=
+  map (fun c => if ((65 <=? c) && (c <=? 90))%N then (c + 32)%N else c) s.
+Definition lower_keys {A} (l : list (ustr * A)) : list (ustr * A) := map (fun kv => (lower_ustr (fst kv), snd kv)) l.
+Definition keys_lower {A} (l : list (ustr * A)) : bool := forallb (fun kv => ueqb (lower_ustr (fst kv)) (fst kv)) l.
+
+Lemma lower_keys_id {A} (l : list (ustr * A)) : keys_lower l = true -> lower_keys l = l.
+Proof.
+  induction l as [|[k x] r IH]; [reflexivity|]. unfold keys_lower, lower_keys in *. cbn [forallb map fst snd].
+  intro H. apply andb_true_iff in H. destruct H as [H1 H2]. apply ueqb_eq in H1. rewrite H1, (IH H2). reflexivity.
+Qed.
+
+Fixpoint lower_ty (t : sty) : sty :=
+  match t with
+  | TArray t' => TArray (lower_ty t')
+  | TStruct fs => TStruct ((fix go (fs : list (ustr * sty)) : list (ustr * sty) :=
+                              match fs with [] => [] | (k, x) :: r => (lower_ustr k, lower_ty x) :: go r end) fs)
+  | TMap k v => TMap (lower_ty k) (lower_ty v)
+  | _ => t
+  end.
+
 Section Lit.
   Variable lch : chain lact.     (* Column._lit, regenerated *)
   Variable fch : chain fact.     (* functions.lit, regenerated *)
@@ -110,7 +132,7 @@ Section Lit.
   (** Column._lit (recursive calls are cls._lit, not lit) *)
   Fixpoint lit_nested (v : pyval) : lit :=
     match lact_of v with
-    | Some AStruct => match v with PRow fs => LStruct (map_snd lit_nested fs) | _ => LErr end
+    | Some AStruct => match v with PRow fs => LStruct (lower_keys (map_snd lit_nested fs)) | _ => LErr end
     | Some AArray =>
         match v with
         | PList l | PTuple l => LArr (map lit_nested l)
@@ -157,7 +179,7 @@ End Lit.
 (** the pattern-matching definitions the property needs *)
 Fixpoint std_lit_nested (v : pyval) : lit :=
   match v with
-  | PRow fs => LStruct (map_snd std_lit_nested fs)
+  | PRow fs => LStruct (lower_keys (map_snd std_lit_nested fs))
   | PList l => LArr (map std_lit_nested l)
   | PTuple l => LTuple (map std_lit_nested l)
   | PDict kv => LMap (map (fun p => std_lit_nested (fst p)) kv) (map (fun p => std_lit_nested (snd p)) kv)
@@ -235,7 +257,7 @@ Proof.
     apply map_ext_Forall; exact H.
   - intros l H. cbn [lit_nested]. rewrite K. cbn [cls_of flav_of std_lact std_lit_nested]. f_equal.
     apply map_ext_Forall; exact H.
-  - intros fs H. cbn [lit_nested]. rewrite K. cbn [cls_of flav_of std_lact std_lit_nested]. f_equal.
+  - intros fs H. cbn [lit_nested]. rewrite K. cbn [cls_of flav_of std_lact std_lit_nested]. f_equal. f_equal.
     apply map_snd_ext_Forall; exact H.
   - intros kv H. cbn [lit_nested]. rewrite K. cbn [cls_of flav_of std_lact std_lit_nested]. f_equal.
     + apply map_ext_Forall. eapply Forall_impl; [|exact H]. cbn. tauto.
@@ -523,17 +545,23 @@ Fixpoint nodup_keys {A} (fs : list (ustr * A)) : bool :=
 Definition has_field {A} (k : ustr) (fs : list (ustr * A)) : bool := existsb (fun p => ueqb (fst p) k) fs.
 
 (** values the theorem speaks about: any string, 64-bit ints, any float, non-empty structs with distinct
-    field names that are not the pair key/value; tuples, dicts and Decimals are not in the property's list *)
+    lower-case field names that are not the pair key/value; tuples, dicts and Decimals are not in the property's list *)
 Fixpoint supp (v : pyval) : bool :=
   match v with
   | PInt z => int64 z
   | PList l => forallb supp l
-  | PRow fs => negb (match fs with [] => true | _ => false end) && nodup_keys fs
+  | PRow fs => (negb (match fs with [] => true | _ => false end) && keys_lower fs) && nodup_keys fs
                && negb (has_field s_key fs && has_field s_value fs)
                && forallb (fun kv => supp (snd kv)) fs
   | PTuple _ | PDict _ | PDec _ => false
   | _ => true
   end.
+
+Lemma keys_lower_map_snd {A B} (f : A -> B) (fs : list (ustr * A)) : keys_lower (map_snd f fs) = keys_lower fs.
+Proof.
+  unfold keys_lower. induction fs as [|[k x] r IH]; [reflexivity|]. cbn [map_snd forallb fst].
+  fold (@map_snd ustr _ _ f). rewrite IH. reflexivity.
+Qed.
 
 (** the engine value a supported value's literal denotes ... *)
 Fixpoint D0 (v : pyval) : dbval :=
@@ -603,8 +631,10 @@ Section Roundtrip.
     - intros l _ H. discriminate.
     - intros fs IH H. cbn [supp] in H.
       apply andb_true_iff in H. destruct H as [H Hall]. apply andb_true_iff in H. destruct H as [H _].
-      apply andb_true_iff in H. destruct H as [Hne _].
-      cbn [std_lit_nested eval D0].
+      apply andb_true_iff in H. destruct H as [Hne _]. apply andb_true_iff in Hne. destruct Hne as [Hne Hlow].
+      cbn [std_lit_nested D0].
+      rewrite lower_keys_id by (rewrite keys_lower_map_snd; exact Hlow).
+      cbn [eval].
       rewrite (mapo_snd_map_Forall supp (eval eleaf) std_lit_nested D0 fs IH Hall).
       destruct fs as [|[k0 x0] r0]; [discriminate|]. reflexivity.
     - intros kv _ H. discriminate.
@@ -894,7 +924,7 @@ Section Column.
     end.
 
   Definition finish (ty : option sty) (d : dbval) : option pyval :=
-    match (match ty with Some t => cast cleaf t d | None => Some d end) with
+    match (match ty with Some t => cast cleaf (lower_ty t) d | None => Some d end) with
     | None => None
     | Some d' => Some (fix_dec (to_value vch (client pleaf d')))
     end.
@@ -1106,6 +1136,37 @@ Proof. induction l as [|x r IH]; [reflexivity|]. cbn [map mapo]. fold (mapo f). 
 Lemma lookup_dn k (gs : list (ustr * dbval)) : lookup k (map_snd dn gs) = option_map dn (lookup k gs).
 Proof. apply lookup_map_snd. Qed.
 
+Lemma fits_lower : forall v t, supp v = true -> fits v t = true -> fits v (lower_ty t) = true.
+Proof.
+  apply (pyval_rect' (fun v => forall t, supp v = true -> fits v t = true -> fits v (lower_ty t) = true)).
+  - intros t _ _. reflexivity.
+  - intros b t _ H. destruct t; try discriminate; exact H.
+  - intros z t _ H. destruct t; try discriminate; exact H.
+  - intros f t _ H. destruct t; try discriminate; exact H.
+  - intros f t _ H. discriminate.
+  - intros x t _ H. destruct t; try discriminate; exact H.
+  - intros x t _ H. destruct t; try discriminate; exact H.
+  - intros x t _ H. destruct t; try discriminate; exact H.
+  - intros us tz t _ H. destruct tz; destruct t; try discriminate; exact H.
+  - intros l IH t Hs H. destruct t; try discriminate. cbn [fits lower_ty] in *. cbn [supp] in Hs.
+    rewrite Forall_forall in IH. rewrite forallb_forall in *. intros x Hx. apply IH; [exact Hx|apply Hs; exact Hx|apply H; exact Hx].
+  - intros l _ t _ H. discriminate.
+  - intros fs IH t Hs H. destruct t as [| | | | | | | | | | | | |ts|]; try discriminate.
+    cbn [supp] in Hs.
+    apply andb_true_iff in Hs. destruct Hs as [Hs Hall]. apply andb_true_iff in Hs. destruct Hs as [Hs _].
+    apply andb_true_iff in Hs. destruct Hs as [Hs _]. apply andb_true_iff in Hs. destruct Hs as [_ Hlow].
+    cbn [fits lower_ty] in *. revert ts H. unfold keys_lower in Hlow.
+    induction IH as [|[k x] r Hx _ IHr]; intros ts H.
+    + destruct ts; [reflexivity|discriminate].
+    + destruct ts as [|[k' t'] tr]; [discriminate|].
+      apply andb_true_iff in H. destruct H as [H Hr]. apply andb_true_iff in H. destruct H as [Hk Hf].
+      cbn [forallb fst snd] in Hlow, Hall. apply andb_true_iff in Hlow. destruct Hlow as [Hl1 Hl2].
+      apply andb_true_iff in Hall. destruct Hall as [Ha1 Ha2]. cbn [snd] in Hx.
+      apply ueqb_eq in Hk. subst k'. apply ueqb_eq in Hl1. rewrite Hl1, ueqb_refl, (Hx t' Ha1 Hf). cbn [andb].
+      apply IHr; assumption.
+  - intros kv _ t _ H. discriminate.
+Qed.
+
 Lemma std_to_value_not_dec v f : std_to_value v = PDec f -> False.
 Proof.
   destruct v as [| | | | | | | |us tz|l|l|fs|kv]; cbn [std_to_value]; try discriminate.
@@ -1304,7 +1365,7 @@ Section ColumnRoundtrip.
   Proof.
     intros s t v Hr Hm. unfold col_member in Hm. apply andb_true_iff in Hm. destruct Hm as [Hs Hf].
     destruct (unified_ok s v Hr) as [U1 U2]. unfold finish.
-    rewrite (cast_equiv _ t _ Hs Hf U1 U2), (to_value_is_std vch VOK), (client_nested _ _ _ ENV _ Hs),
+    rewrite (cast_equiv _ (lower_ty t) _ Hs (fits_lower v t Hs Hf) U1 U2), (to_value_is_std vch VOK), (client_nested _ _ _ ENV _ Hs),
             (expected_not_dec _ Hs). reflexivity.
   Qed.
 
